@@ -410,4 +410,126 @@ theorem stateOf_le_sum {g : G} (inst : Str) (h : WF g) : (stateOf g inst).count 
   · exact sum_nonneg h.states
   · exact find_le_sum h.states hf
 
+/-- ModInv is preserved by `report` on a registered instance -/
+theorem report_modInv {g : G} {inst : Str} {state : Inst} {rid cur : Int}
+    (h : ModInv g) (hf : find inst g.states = some state) (hcur : 0 ≤ cur ∧ cur ≤ 2147483647) :
+    ModInv (report g inst state rid cur).1 := by
+  obtain ⟨wf, hcnt⟩ := h
+  have ho := allOk_find wf.states hf
+  by_cases hs : rid > 0 ∧ rid ≤ state.requestId
+  · rw [report_stale _ _ _ _ _ hs]; exact ⟨wf, hcnt⟩
+  · rcases report_cases g inst state rid cur wf.count ho hcur hs with ⟨_, _, e⟩ | ⟨_, e⟩
+    · rw [e]
+      refine ⟨⟨wf.max, wf.count, allOk_put wf.states ho, nodup_put wf.nodup⟩, ?_⟩
+      show g.count = wrap32 (sumStates (put inst _ g.states))
+      rw [sum_put_some hf, hcnt]
+      show _ = wrap32 (sumStates g.states - state.count + state.count)
+      congr 1; omega
+    · rw [e]
+      refine ⟨⟨wf.max, wrap32_in _, allOk_put wf.states hcur, nodup_put wf.nodup⟩, ?_⟩
+      show wrap32 (g.count + (cur - state.count)) = wrap32 (sumStates (put inst _ g.states))
+      rw [sum_put_some hf, hcnt]
+      show _ = wrap32 (sumStates g.states - state.count + cur)
+      unfold wrap32; omega
+
+theorem ensure_modInv {g : G} (inst : Str) (h : ModInv g) : ModInv (ensure g inst) :=
+  ⟨ensure_wf inst h.1, by rw [ensure_count, ensure_sum]; exact h.2⟩
+
+theorem setState_modInv {g : G} (inst : Str) (rid cur : Int) (h : ModInv g) (hcur : InI32 cur) :
+    ModInv (setState g inst rid cur).1 := by
+  by_cases hneg : cur < 0
+  · cases hf : find inst g.states with
+    | none => rw [setState_remove_none g inst rid cur hneg hf]; exact h
+    | some s =>
+      rw [setState_remove_some g inst rid cur s hneg hf]
+      obtain ⟨wf, hcnt⟩ := h
+      refine ⟨⟨wf.max, wrap32_in _, allOk_erase wf.states, nodup_erase wf.nodup⟩, ?_⟩
+      show wrap32 (g.count + wrap32 (-s.count)) = wrap32 (sumStates (erase inst g.states))
+      rw [sum_erase_some hf, hcnt]
+      unfold wrap32; omega
+  · have h0 : 0 ≤ cur := by omega
+    rw [setState_report g inst rid cur h0]
+    exact report_modInv (ensure_modInv inst h) (ensure_find g inst) ⟨h0, hcur.2⟩
+
+theorem report_exact {g : G} {inst : Str} {state : Inst} {rid cur : Int}
+    (h : Inv g) (hf : find inst g.states = some state) (hcur : 0 ≤ cur ∧ cur ≤ 2147483647) (hm : 0 ≤ g.max)
+    (hpre : sumStates g.states ≤ g.max ∨ sumStates g.states - state.count + cur ≤ 2147483647)
+    (hns : ¬ (rid > 0 ∧ rid ≤ state.requestId)) :
+    (sumStates g.states - state.count + cur > g.max ∧ cur > state.count ∧
+      report g inst state rid cur =
+        ({ g with states := put inst ⟨state.count, newId state rid⟩ g.states }, ⟨false, state.count, .none⟩))
+    ∨ (¬ (sumStates g.states - state.count + cur > g.max ∧ cur > state.count) ∧
+      sumStates g.states - state.count + cur ≤ 2147483647 ∧
+      report g inst state rid cur =
+        ({ g with count := sumStates g.states - state.count + cur, states := put inst ⟨cur, newId state rid⟩ g.states },
+         ⟨decide (sumStates g.states - state.count + cur < g.max ∨
+                  (sumStates g.states - state.count + cur = g.max ∧ cur = 0)), cur, .none⟩)) := by
+  obtain ⟨wf, hcnt⟩ := h
+  have ho := allOk_find wf.states hf
+  have hle := find_le_sum wf.states hf
+  have hS0 := sum_nonneg wf.states
+  have hSm : sumStates g.states ≤ 2147483647 := by have := wf.count; unfold InI32 at this; omega
+  have hmm : g.max ≤ 2147483647 := by have := wf.max; unfold InI32 at this; omega
+  obtain ⟨hiff, hex⟩ := ovf_exact (g := g) (old := state.count) (cur := cur) hcnt hS0 hSm ⟨ho.1, hle⟩ hcur ⟨hm, hmm⟩ hpre
+  rcases report_cases g inst state rid cur wf.count ho hcur hns with ⟨h1, h2, e⟩ | ⟨h1, e⟩
+  · left
+    have := hiff.1 ⟨h1, h2⟩
+    exact ⟨this.1, this.2, e⟩
+  · right
+    have hn : ¬ (sumStates g.states - state.count + cur > g.max ∧ cur > state.count) := fun hh => h1 (hiff.2 hh)
+    obtain ⟨e1, e2, e3⟩ := hex hn
+    refine ⟨hn, e3, ?_⟩
+    rw [e, e1, e2]
+    congr 2
+    apply decide_eq_decide.2
+    omega
+
+/-- what `report` leaves registered for the instance: request id (no arithmetic involved) -/
+theorem report_find_id (g : G) (inst : Str) (state : Inst) (rid cur : Int) (hf : find inst g.states = some state) :
+    ∃ s', find inst (report g inst state rid cur).1.states = some s' ∧
+      s'.requestId = (if rid > 0 ∧ rid ≤ state.requestId then state.requestId else newId state rid) := by
+  rw [report_eq]
+  by_cases hs : rid > 0 ∧ rid ≤ state.requestId
+  · simp only [hs, and_self, if_true]; exact ⟨state, hf, rfl⟩
+  · simp only [hs, if_false]
+    split
+    · exact ⟨_, find_put_self _ _ _, rfl⟩
+    · split <;> exact ⟨_, find_put_self _ _ _, rfl⟩
+
+/-- `report` does not touch other instances -/
+theorem report_find_other (g : G) (inst j : Str) (state : Inst) (rid cur : Int) (h : j ≠ inst) :
+    find j (report g inst state rid cur).1.states = find j g.states := by
+  rw [report_eq]
+  split
+  · rfl
+  · simp only []
+    split
+    · exact find_put_other _ _ h
+    · split <;> exact find_put_other _ _ h
+
+theorem report_max (g : G) (inst : Str) (state : Inst) (rid cur : Int) :
+    (report g inst state rid cur).1.max = g.max := by
+  rw [report_eq]
+  split
+  · rfl
+  · simp only []
+    split
+    · rfl
+    · split <;> rfl
+
+theorem setState_max (g : G) (inst : Str) (rid cur : Int) : (setState g inst rid cur).1.max = g.max := by
+  by_cases hneg : cur < 0
+  · cases hf : find inst g.states with
+    | none => rw [setState_remove_none g inst rid cur hneg hf]
+    | some s => rw [setState_remove_some g inst rid cur s hneg hf]
+  · rw [setState_report g inst rid cur (by omega), report_max, ensure_max]
+
+theorem setState_find_other (g : G) (inst j : Str) (rid cur : Int) (h : j ≠ inst) :
+    find j (setState g inst rid cur).1.states = find j g.states := by
+  by_cases hneg : cur < 0
+  · cases hf : find inst g.states with
+    | none => rw [setState_remove_none g inst rid cur hneg hf]
+    | some s => rw [setState_remove_some g inst rid cur s hneg hf]; exact find_erase_other _ h
+  · rw [setState_report g inst rid cur (by omega), report_find_other _ _ _ _ _ _ h, ensure_find_other _ _ _ h]
+
 end KG.Lemmas.GlobalCount
